@@ -1721,7 +1721,13 @@ Qed.
 Lemma pstep_ok kl p o : pstate_ok p -> o <> PAutoSave false ->
   pstate_ok (fst (pstep succ subject manifest cfg_fixed kl p o)).
 Proof.
-  intros (Hr & Hs & Ha) Hne. destruct o as [o| |b|early order k|bad|order k].
+  intros (Hr & Hs & Ha) Hne. destruct o as [o| |b|early order k|bad|alt|order k].
+  6: { cbn [pstep fst]. split; [|split; [|exact Ha]].
+       - cbn [mem saved idx]. destruct Hr as [R1 R2]. split.
+         + intros d m H. apply filter_In in H as [H _]. eauto.
+         + intros t m H. apply filter_In in H as [H Hc]. apply filter_In. split; [now apply (R2 t)|exact Hc].
+       - rewrite Ha, delete_saves_before_unlink_ok. apply saved_synced. cbn [andb orb]. rewrite andb_true_r. intro Hq.
+         apply negb_false_iff in Hq. apply entries_eqb_eq in Hq. cbn [idx]. rewrite Hq. exact Hs. }
   6: { cbn [pstep].
        destruct (gc_cancel succ subject manifest cfg_fixed kl (fun _ => candidates (idx (mem p))) order k (mem p)) as [m r] eqn:E.
        cbn [fst]. unfold gc_cancel in E.
@@ -1835,11 +1841,13 @@ Proof.
 Qed.
 
 Lemma pstep_inv kl p o :
+  (forall n, o <> PDeleteAlt n) ->
   wf (mem p) /\ no_stale (mem p) ->
   wf (mem (fst (pstep succ subject manifest cfg_fixed kl p o))) /\
   no_stale (mem (fst (pstep succ subject manifest cfg_fixed kl p o))).
 Proof.
-  intros [Hw Hn]. destruct o as [o| |b|early order k|bad|order k].
+  intros Halt [Hw Hn]. destruct o as [o| |b|early order k|bad|alt|order k].
+  6: { exfalso. now apply (Halt alt). }
   6: { cbn [pstep].
        destruct (gc_cancel_spec kl (fun _ => candidates (idx (mem p))) order k (mem p) ltac:(tauto))
          as (sc & Ec & Ei & Eg & Hg & Hb & _).
@@ -1869,14 +1877,16 @@ Proof.
 Qed.
 
 Lemma prun_inv kl ops :
+  Forall (fun o => forall n, o <> PDeleteAlt n) ops ->
   let p := fold_left (fun p o => fst (pstep succ subject manifest cfg_fixed kl p o)) ops pinit in
   wf (mem p) /\ no_stale (mem p).
 Proof.
-  assert (H : forall p, wf (mem p) /\ no_stale (mem p) ->
+  assert (H : forall p, Forall (fun o => forall n, o <> PDeleteAlt n) ops -> wf (mem p) /\ no_stale (mem p) ->
      let q := fold_left (fun p o => fst (pstep succ subject manifest cfg_fixed kl p o)) ops p in
      wf (mem q) /\ no_stale (mem q)).
-  { induction ops as [|o ops IH]; intros p Hp; [exact Hp|]. simpl. apply IH. now apply pstep_inv. }
-  apply H. split; [intros y []|intros t n []].
+  { induction ops as [|o ops IH]; intros p Hf Hp; [exact Hp|]. inversion Hf; subst. simpl.
+    apply IH; [assumption|]. now apply pstep_inv. }
+  intro Hf. apply H; [exact Hf|]. split; [intros y []|intros t n []].
 Qed.
 
 End Proofs.
@@ -2439,12 +2449,12 @@ Proof. vm_compute. repeat split. Qed.
 
 Lemma phistories_final : forall succ subject manifest,
   acyclic succ -> subject_listed succ subject ->
-  forall kl ops,
+  forall kl ops, Forall (fun o => forall n, o <> PDeleteAlt n) ops ->
   let p := fold_left (fun p o => fst (pstep succ subject manifest cfg_fixed kl p o)) ops pinit in
   wf (mem p) /\ (forall n, is_tagged (mem p) n = true <-> exists t, In (RTag t, n) (idx (mem p))).
 Proof.
-  intros succ subject manifest H1 H2 kl ops p.
-  destruct (prun_inv succ subject manifest H1 H2 kl ops) as [Hw Hn]. fold p in Hw, Hn.
+  intros succ subject manifest H1 H2 kl ops Hf p.
+  destruct (prun_inv succ subject manifest H1 H2 kl ops Hf) as [Hw Hn]. fold p in Hw, Hn.
   split; [exact Hw|]. intro n. now apply no_stale_tagged.
 Qed.
 
@@ -2485,3 +2495,13 @@ Qed.
 
 Lemma lock_discipline_final : lock_discipline = true.
 Proof. vm_compute. reflexivity. Qed.
+
+(* Delete with the blob descriptor Resolve(<digest>) returns: the file and the references go, the
+   graph keeps a node without content (wf is lost until GC or a reload); GC repairs it *)
+Lemma delete_alt_stale_node :
+  let p := prun_w [PO (OPush 0); PO (OPush 1); PDeleteAlt 0] in
+  blobs (mem p) = [1] /\ In 0 (gnodes (mem p)) /\ ~ In 0 (blobs (mem p)) /\
+  gnodes (mem (prun_w [PO (OPush 0); PO (OPush 1); PO (OTag 1 0); PDeleteAlt 0; PO OGC])) = [1] /\
+  snd (pstep succ_w subject_w manifest_w cfg_fixed true (prun_w [PO (OPush 0); PO (OPush 1)]) (PDeleteAlt 0)) = Ok /\
+  snd (pstep succ_w subject_w manifest_w cfg_fixed true p (PDeleteAlt 0)) = ENotFound.
+Proof. vm_compute. intuition discriminate. Qed.
